@@ -322,3 +322,43 @@ def nontruncating_writes(fn_node):
             if isinstance(mode, str) and (mode.startswith('a') or mode.startswith('r+')) and f != 'os.fdopen':
                 out.append((n, 'mode %r keeps the existing content' % mode))
     return out
+
+
+# ---------------------------------------------------------------------------------------------------------------------
+# obligations shared between properties
+# ---------------------------------------------------------------------------------------------------------------------
+def import_clauses(ctx, res, src_prop, src_clauses, prop, cid, kind, title, floor=1):
+    """some obligations are necessary conditions of more than one property (the rule is written once, under the property it was
+    first needed for): run that property's rules (cached per process) and restate the selected clauses - instances and findings -
+    under this property, so that a change breaking this property is reported by this property's own check"""
+    import importlib
+    from ..report import Result, LAST_RESULT
+    mod = importlib.import_module('sa.rules.%s' % src_prop.lower())
+    keep = LAST_RESULT[0]
+
+    def run_src():
+        try:
+            return mod.run(ctx)
+        except Exception:
+            part = LAST_RESULT[0]
+            if part is not None and part.prop == src_prop:
+                return part
+            raise
+    try:
+        src = ctx.get(('imported-run', src_prop), run_src)
+    finally:
+        LAST_RESULT[0] = keep
+    c = res.clause(cid, kind, title + ' (shared with %s)' % ', '.join(src_clauses), floor=floor)
+    for sc in src.clauses:
+        if sc.id in src_clauses:
+            for i in sc.instances:
+                c.instance(i['construct'], i['where'], i['ok'], detail=i.get('detail'))
+            c.evaluations += sc.evaluations
+    from ..report import load_known, match_known
+    known = load_known()
+    for f in src.findings:
+        if f.clause in src_clauses:
+            if match_known(f, known) is not None:
+                continue          # a recorded known finding is reported (as KNOWN-FINDING) by the property it is listed under
+            res.add(Finding(prop, cid, f.kind, f.file, f.func, f.line, f.construct, f.message, witness=f.witness, entry=f.entry, exit=f.exit))
+    return c
